@@ -43,16 +43,19 @@ CHECKS = {
             "Every fault point that lies inside a new_cyclic call of each base history is executed."),
     "C15": ("exploration", "4 C15", "runtime monitoring: trigger decision of every creation compared with the documented condition evaluated on the pre-state (byte threshold through the hook); threshold post-conditions after every collection; boundary-steering workload (allocated == threshold-8 / threshold / threshold+8, buffered == threshold / threshold+1)",
             "Hundreds of thousands of trigger decisions, thousands at the exact boundaries, thresholds climbing and falling through many doublings / halvings under all adjustment_percent / buffered-threshold settings."),
+    "C16": ("exploration", "4 C16", "runtime monitoring: climb to the strong (16382) and weak (32767) limits through every acquisition route under catch_unwind, all observers (strong_count, weak_count, Weak counts, already_finalized) compared before / after every step near the limit, hysteresis, then death of the object (finalize once, drop once, bytes back to baseline); Miri/ASan/valgrind replays",
+            "All scenarios of the route x side-record x finalized x cycle-shape grid are enumerated (exhaustive over the stated grid)."),
     "C17": ("exploration", "4 C17", "runtime monitoring: counting probe leaves at every position of every implemented container (macro-enumerated grid), hit counts vs the holder's own trace count, cycle-through-position reclamation, survive-through-position, borrowed RefCell, direct Finalize calls; Miri/ASan/valgrind replays",
             "The grid of container types x positions x modes is enumerated completely (exhaustive over the stated bounds)."),
     "C18": ("exploration", "4 C18", "runtime monitoring of generated derive shapes (hit-count oracle per field / variant) + observation of rustc's verdict on Drop-conflict probes (E0119 expected / unsafe_no_drop compiles and runs the destructor)",
             "Enumerated core of shapes (all ignore masks up to 4 fields, all enums up to 3 variants) plus seeded random shapes up to 8 fields / 4 variants."),
+    "C19": ("exploration", "4 C19", "runtime monitoring: N in {2,4,8,16} threads each running the full single-thread monitor, barrier-delimited idle windows (counters / configuration of an idle thread must not move), allocator log with thread ids (cross-thread free), ThreadSanitizer, Miri; teardown matrix in child processes / threads (exit status, drop counters, allocator ground truth)",
+            "Schedules that occurred natively, under TSan and under Miri; both thread-local destruction orders x six object states x thread / main-thread exit."),
+    "C20": ("exploration", "4 C20", "runtime monitoring: addresses returned by Deref / AsRef / Borrow sampled after every operation of churn histories on a 48-point size x alignment grid (ZST and 4096-aligned included), ptr_eq on all handle pairs, forwarding impls (Eq/Ord/PartialOrd/Hash/Debug/Display/Default) compared with T on all ordered pairs of seven value domains; Miri checks reference alignment itself",
+            "Layout grid and value-pair domains enumerated (exhaustive over the stated grid); churn histories seeded."),
 }
 
 PENDING = {
-    "C16": "check under construction in this session (saturation probes, crate p_ptr)",
-    "C19": "check under construction in this session (thread workloads, teardown matrix)",
-    "C20": "check under construction in this session (layout grid + forwarding impls, crate p_ptr)",
 }
 
 
@@ -92,6 +95,7 @@ def main():
              "kind_free_text": "operation interpreter + shadow model + oracles over the real crate; random / directed generators; fault enumeration; replayed under Miri, ASan, valgrind"},
             {"name": "p_containers", "path": "/verif/p_containers", "serves_properties": ["C17"], "kind_free_text": "enumerated container grid with counting probes"},
             {"name": "p_derive", "path": "/verif/p_derive", "serves_properties": ["C18"], "kind_free_text": "generator of derive shapes + run-time hit-count oracle + compile probes"},
+            {"name": "p_ptr", "path": "/verif/p_ptr", "serves_properties": ["C16", "C20"], "kind_free_text": "saturation scenarios; layout grid + forwarding-impl comparison"},
             {"name": "driver", "path": "/verif/lib/driver.py", "serves_properties": sorted(claimed), "kind_free_text": "builds from /repo, runs shards with watchdogs, merges reports, matches known findings, writes evidence"},
         ],
         "checks": checks,
